@@ -5,10 +5,14 @@ with p == normpath(p), p absolute and commonpath([R, p]) == R for
 R = abspath(root with backslashes turned into slashes).  Names are enumerated
 from an adversarial segment alphabet (exhaustively up to a bound), drawn at random
 from unicode, and obtained by sending URLs through the real Router with a
-`/:path*` route, as demo/http.py does.
+`/:path*` route, as demo/http.py does.  A further family is derived FROM each
+root: absolute names of another tree that contain the root's own path lower down
+(<other tree> + root + tail, the root twice, every separator form), given to the
+function directly and through the Router.
 """
 import itertools
 import os
+import re
 
 from mon.core.merge import merge, need
 from mon.core.util import Counter, h64, rng
@@ -38,6 +42,11 @@ def plan(tier, seed):
         shards.append({"kind": "random", "tier": tier, "seed": seed, "shard": i,
                        "n": 25000 if tier == "quick" else 200000, "subprocess": True})
     shards.append({"kind": "router", "tier": tier, "seed": seed, "n": 20000 if tier == "quick" else 300000, "subprocess": True})
+    n_embed = 4 if tier == "quick" else 8
+    for i in range(n_embed):
+        # shard i takes ROOTS[i::n_embed]; the shards with i % 4 == 0 also take the roots on disk and the relative roots after chdir
+        shards.append({"kind": "embed", "tier": tier, "seed": seed, "shard": i, "nshards": n_embed,
+                       "n": 12 if tier == "quick" else 300, "subprocess": True})
     return shards
 
 
@@ -72,7 +81,9 @@ class Monitor(object):
             inside = False
         if not inside:
             norm = name.replace("\\", "/")
-            if norm.startswith("/"):
+            if norm.startswith("/") and embeds_root(R, norm):
+                mech = "absolute-name-embedding-root-escapes-root"
+            elif norm.startswith("/"):
                 mech = "absolute-name-escapes-root"
             elif ".." in norm.split("/"):
                 mech = "dotdot-escapes-root"
@@ -97,6 +108,20 @@ class Monitor(object):
         return {"evaluations": self.counters.get("calls", 0), "distinct": sorted(self.distinct),
                 "distinct_count": self.distinct_count,
                 "counters": dict(self.counters), "violations": self.violations, "samples": self.samples}
+
+
+def embeds_root(R, norm):
+    """the (slash-normalized) name contains the root's full path as a complete sub-path somewhere AFTER its start"""
+    if R == "/":
+        return False
+    flat = re.sub("/+", "/", norm)
+    i = flat.find(R, 1)
+    while i > 0:
+        end = i + len(R)
+        if end == len(flat) or flat[end] == "/":
+            return True
+        i = flat.find(R, i + 1)
+    return False
 
 
 def join(segs, sep, r=None):
@@ -269,13 +294,123 @@ def run_router(cfg, mon):
             mon.samples.append({"uri": uri, "captured": name, "root": root})
 
 
+EMBED_HEADS = ["/var/uploads", "/x", "/tmp/a b", "/home/user/mirror", "/é", "/srv", "/C:", "/~", "/...", "/%2e%2e"]
+EMBED_TAILS = ["", "/", "/shell.py", "/a/b.txt", "/index.html", "//x", "x", "x/f", "/ ", "/%2e%2e/f"]
+
+
+def root_embedding_names(root, extra_heads=()):
+    """names built FROM the root (as resolved NOW): <head> + R + <tail>, where the head is another tree (fixed ones, ones derived
+    from the root's own parent / base name / a sibling, and - as positive controls - ones beneath the root and relative ones), the
+    core is the root once, twice in a row, or twice with something in between, and every result is written with each kind of
+    separator and absolute prefix a client can send.  Yields (name, head_is_outside)"""
+    R = os.path.abspath(root.replace("\\", "/"))
+    Rs = R.rstrip("/")                       # "" for the root "/"
+    base = os.path.basename(R) or "x"
+    parent = os.path.dirname(R).rstrip("/")
+    outside = list(EMBED_HEADS) + list(extra_heads) + ["/" + base, parent + "/other", Rs + "2", Rs + "-old", Rs.upper() + "_", parent + "/" + base[:-1] + "_"]
+    inside = [Rs + "/sub", Rs + "/a/b", "", "var/uploads", "x", "C:"]   # beneath the root (absolute or relative): must stay inside
+    seen = set()
+    for heads, is_out in ((outside, True), (inside, False)):
+        for head in heads:
+            for core in (Rs, Rs + Rs, Rs + "/x" + Rs, Rs + "/" + base + Rs):
+                for tail in EMBED_TAILS:
+                    plain = head + core + tail
+                    if not plain:
+                        continue
+                    forms = [plain, plain.replace("/", "\\"), join(plain.split("/"), "mixed")]
+                    if plain.startswith("/"):
+                        forms += ["/" + plain, "//" + plain, "\\" + plain[1:], "\\\\" + plain[1:].replace("/", "\\"), plain + "/"]
+                    for name in forms:
+                        if name not in seen:
+                            seen.add(name)
+                            yield name, is_out
+
+
+def run_embed(cfg, mon):
+    """absolute names that embed the root's own path below another tree - directly, for roots on disk (with the mirror tree really
+    there), for relative roots after a chdir, and as captured by the real Router from URLs"""
+    import shutil
+    from mpgameserver.http_server import Router, Route, parse_url
+    r = rng("C17", cfg["seed"], "embed", cfg.get("shard", 0))
+    alphabet = ["a", "var", "uploads", "tmp", "x y", "é", "...", "..a", "C:", "~", "www", "srv", "static", "%2e%2e", "0"]
+    extra = ["/" + "/".join(r.choice(alphabet) for _ in range(r.randint(1, 4))) for _ in range(cfg["n"])]
+    router = Router()
+    router.registerRoutes([Route("static", "GET", "/static/:path*", lambda req: None),
+                           Route("files", "GET", "/files/:path+", lambda req: None),
+                           Route("root", "GET", "/:path*", lambda req: None)])
+
+    def direct(root, origin):
+        for name, is_out in root_embedding_names(root, extra):
+            p = mon.check(root, name, origin)
+            mon.counters.inc("root_embedding_names")
+            mon.counters.inc("root_embedding_names_refused" if p is None else "root_embedding_names_returned")
+            if not is_out:
+                mon.counters.inc("root_embedding_controls_beneath_root")
+                if p is not None:
+                    mon.counters.inc("root_embedding_controls_returned")
+            mon.distinct.add(h64("embed", root, name))
+            if len(mon.samples) < 2 and is_out and name.startswith("/") and name.count("/") > 4:
+                mon.samples.append({"root": root, "name": name})
+
+    def via_router(root, origin):
+        for i, (name, is_out) in enumerate(root_embedding_names(root, extra[:3])):
+            for prefix in {"/static/", ("/static/", "/files/", "/")[i % 3]}:
+                uri = prefix + name
+                try:
+                    path, query, frag = parse_url(uri.encode("utf-8"))
+                    path = path.decode("utf-8")
+                except Exception:
+                    continue
+                res = router.getRoute("GET", path)
+                if not res:
+                    mon.counters.inc("router_no_match")
+                    continue
+                captured = res[1].get("path") or ""
+                mon.counters.inc("router_root_embedding_names")
+                if captured.replace("\\", "/").startswith("/"):
+                    mon.counters.inc("router_root_embedding_names_absolute")
+                mon.check(root, captured, "%s:%s" % (origin, uri))
+
+    for root in ROOTS[cfg.get("shard", 0)::cfg.get("nshards", 1)]:
+        direct(root, "root-embedded-in-name")
+        via_router(root, "router-root-embedded")
+    if cfg.get("shard", 0) % 4:
+        return
+
+    base, rroots = real_roots()
+    cwd0 = os.getcwd()
+    try:
+        # the other tree really exists: <base>/uploads/<base>/site/shell.py, as an upload area that mirrors absolute paths would have it
+        mirror = os.path.join(base, "uploads") + os.path.join(base, "site")
+        os.makedirs(os.path.join(mirror, "img"))
+        for f in ("shell.py", "index.html", "img/shell.py"):
+            with open(os.path.join(mirror, f), "w") as fh:
+                fh.write("uploaded")
+        heads_on_disk = [os.path.join(base, "uploads"), os.path.join(base, "site2"), base]
+        for root in rroots:
+            key = os.path.relpath(root, base) + root[len(root.rstrip("/")):]
+            for name, is_out in root_embedding_names(root, heads_on_disk):
+                mon.check(root, name, "root-exists-on-disk-embedded")
+                mon.counters.inc("root_embedding_names_existing_roots")
+                mon.distinct.add(h64("embed-real", key, name.replace(base, "<base>").replace(base.upper(), "<BASE>")))
+            via_router(root, "router-root-on-disk-embedded")
+        os.chdir(os.path.join(base, "site"))
+        for root in ("static", ".", "img", "../site2", ""):
+            for name, is_out in root_embedding_names(root, heads_on_disk):
+                mon.check(root, name, "after-chdir-embedded")
+                mon.counters.inc("root_embedding_names_after_chdir")
+    finally:
+        os.chdir(cwd0)
+        shutil.rmtree(base, ignore_errors=True)
+
+
 def run_shard(cfg):
     mon = Monitor()
     if cfg.get("only_case"):
         c = cfg["only_case"]
         mon.check(c["root"], c["name"], "replay")
         return mon.result()
-    {"enum": run_enum, "random": run_random, "router": run_router}[cfg["kind"]](cfg, mon)
+    {"enum": run_enum, "random": run_random, "router": run_router, "embed": run_embed}[cfg["kind"]](cfg, mon)
     res = mon.result()
     for v in res["violations"]:
         v["case_key"] = v["case"]
@@ -286,13 +421,18 @@ def finish(tier, seed, results):
     m = merge(results)
     inconclusive = []
     need(m["counters"], ["calls", "refused", "returned_inside", "enum_names", "router_names", "valid_names_returned", "sibling_prefix_names",
-                         "names_against_existing_roots", "names_after_chdir"], inconclusive)
+                         "names_against_existing_roots", "names_after_chdir",
+                         "root_embedding_names", "root_embedding_names_refused", "root_embedding_controls_returned",
+                         "router_root_embedding_names_absolute", "root_embedding_names_existing_roots",
+                         "root_embedding_names_after_chdir"], inconclusive)
     cov = {
         "evaluations": m["evaluations"],
         "distinct_nontrivial": m["distinct_nontrivial"],
         "rule": "enumeration: every sequence of 0..%d segments over %r x separators %r x prefixes %r, for each of %d roots "
                 "(distinct by construction, duplicates of short names removed); plus random strings from an adversarial piece "
-                "list and random unicode; plus names captured by the real Router (:path*, :path+) from seeded URLs. "
+                "list and random unicode; plus names captured by the real Router (:path*, :path+) from seeded URLs; plus, for every root "
+                "(the fixed ones, roots on disk, relative roots after chdir), absolute names that embed the root's own path beneath "
+                "another tree (head + root + tail, root twice, all separator forms), directly and through the Router. "
                 "non-trivial = every generated name (each is a distinct (root, name) pair)" % (
                     MAXSEG[tier], SEGS, SEPS, PREFIXES, len(ROOTS)),
         "exhaustive": True,
